@@ -209,10 +209,50 @@ def r13_8(ctx) -> None:
                   "if auto_kid: key.ensure_kid() on every path", construct=f"auto_kid honoured in {G.short}")
 
 
+def r13_10(ctx) -> None:
+    """R13.10  "never overwritten once present": the only code in the whole package that stores a "kid" into a key's JWK view is
+    ensure_kid (whose guard R13.4 decides).  Stores through `key.dict_value[...]`, `.update({"kid": ...})`,
+    `.pop("kid")` from anywhere else (key sets, registries, helpers) replace a kid the key already carried."""
+    eng = ctx.eng
+    from .common import resolve_all
+    ek = eng.prog.cls("rfc7517.models:BaseKey").methods.get("ensure_kid")
+    if ek is None:
+        raise AnalysisError("BaseKey.ensure_kid vanished")
+
+    def is_view(fn, e: ast.AST) -> bool:
+        return any(x.endswith("dict_value") for x in resolve_all(eng, fn, e))
+
+    n = own = 0
+    for fn in eng.prog.all_functions():
+        for node in fn_nodes(fn):
+            hit = None
+            if isinstance(node, ast.Subscript) and isinstance(node.ctx, (ast.Store, ast.Del)) and const_value(node.slice) == "kid" and is_view(fn, node.value):
+                hit = node
+            elif isinstance(node, ast.Call) and isinstance(node.func, ast.Attribute) and is_view(fn, node.func.value):
+                m = node.func.attr
+                if m in ("pop", "__setitem__") and node.args and const_value(node.args[0]) == "kid":  # (setdefault keeps a kid that is present)
+                    hit = node
+                elif m == "update" and any((isinstance(a, ast.Dict) and any(const_value(k) == "kid" for k in a.keys)) for a in node.args) or \
+                        (m == "update" and any(kw.arg == "kid" for kw in node.keywords)):
+                    hit = node
+                elif m == "clear":
+                    hit = node
+            if hit is None:
+                continue
+            n += 1
+            if fn is ek:
+                own += 1
+                continue
+            ctx.fail("R13.10", fn, hit, f"{fn.short} writes the \"kid\" of a key's JWK view outside ensure_kid: a kid that is present can be replaced",
+                     construct=f"kid of a key written in {fn.short}")
+    ctx.count("R13.10", own, 1, "stores of \"kid\" into a key's JWK view (all inside ensure_kid)")
+
+
 def run(ctx) -> None:
     from .common import forwarding_discipline
     ctx.guard(forwarding_discipline, "R13.9", ['auto_kid', 'parameters'], 14)  # arguments are handed on under their own name (generic routing rule, rules/common.py)
     ctx.guard(r13_8)
+    ctx.guard(r13_10)
     ctx.guard(r13_1)
     ctx.guard(r13_2)
     ctx.guard(fixed_width_ec, "R13.3")
